@@ -1,6 +1,7 @@
 import Zlink.Proofs.RxBounds
 import Zlink.Proofs.RxOracle
 import Zlink.Proofs.RxPhases
+import Zlink.Proofs.RxBoundsEv
 import Zlink.Proofs.Tx
 import Zlink.Gen.Consts
 /-! # C17 — Buffers are bounded: oversized traffic is refused, smaller traffic accepted
@@ -80,6 +81,28 @@ theorem C17_rx_threshold_any_history (C : Consts) (M : Nat) (hs : 0 < C.step) (h
     ⟨1, by simp [init], Nat.le_refl _, hM⟩ rfl rfl).2 hcons
   exact threshold_from_idle C M hs hm sizes _ hi hc k f hf
 
+/-- **Oversized or unterminated input that arrives piece by piece, with polls in between** — on a fresh
+    connection (`ps = []`) or after any history of consumed bursts: every poll before `max` bytes have
+    arrived stays pending, the first poll after that reports `overflow` (this is the executable oracle the
+    harness evaluates on the implementation's observations in scenario `rx-bounds`, for every event
+    sequence; what happens after the overflow is not constrained). -/
+theorem C17_rx_overflow_interleaved (C : Consts) (M : Nat) (hs : 0 < C.step) (hm : C.max = M * C.step) (hM : 1 ≤ M)
+    (sizes : Nat → Nat) (ps : List Phase) (hps : ∀ p ∈ ps, PhaseOK C p)
+    (hcons : AllConsumed ps (runPhases C sizes ps (init C) net0).1)
+    (stream : List Byte) (hlen : C.max ≤ stream.length) (hnz : (0 : Byte) ∉ stream.take (C.max - 1))
+    (evs : List Ev) (hev : EvsOK evs stream) :
+    SpecRx.boundsConforms C.max evs
+      (run C sizes evs (runPhases C sizes ps (init C) net0).2.1 (runPhases C sizes ps (init C) net0).2.2) 0 = true := by
+  obtain ⟨hi, hc, ha, hcl⟩ := (phases_from_idle C M hs hm sizes ps (init C) net0 hps (init_idle C)
+    ⟨1, by simp [init], Nat.le_refl _, hM⟩ rfl rfl).2 hcons
+  have hcap : 0 < (runPhases C sizes ps (init C) net0).2.1.cap := by
+    obtain ⟨j, hj, hj1, _⟩ := hc
+    rw [hj]; exact Nat.mul_pos (by omega) hs
+  have := run_boundsConforms C M hs hm sizes stream hlen hnz evs _ _ stream
+    ⟨hi.2, hc, by rw [hi.1]; simpa using hcap, by rw [hi.1, ha]; simp, fun h => by rw [hcl] at h; cases h⟩ hev
+  rw [hi.1, ha] at this
+  simpa using this
+
 /-- **Outbound threshold**: a message of `len` bytes submitted when `p` bytes are queued is accepted
     iff `p + len + 1 ≤ max`; otherwise it is refused with `overflow`, nothing is queued and nothing
     is written. (Via the refinement `Tx.run_refines`, this is the behaviour of the buffer-level code.) -/
@@ -126,5 +149,8 @@ example : AllConsumed hist (runPhases C (fun _ => 2) hist (init C) net0).1 ∧ (
   ⟨⟨by decide, trivial⟩, by decide⟩
 example : (poll C (fun _ => 2) (runPhases C (fun _ => 2) hist (init C) net0).2.1 ⟨[1, 2, 3, 4, 5, 6, 0], true, 0⟩).1 = .frame [1, 2, 3, 4, 5, 6] := by decide
 example : (poll C (fun _ => 2) (runPhases C (fun _ => 2) hist (init C) net0).2.1 ⟨[1, 2, 3, 4, 5, 6, 7, 0], true, 0⟩).1 = .err .overflow := by decide
+/-- ten bytes without terminator arriving in three pieces with polls in between: pending, pending, overflow -/
+example : run C (fun _ => 2) [.arrive [1, 2, 3], .poll, .arrive [4, 5, 6], .poll, .arrive [7, 8, 9, 10], .poll] (init C) net0 =
+    [.pending, .pending, .err .overflow] := by decide
 end Example
 end C17
